@@ -6,7 +6,50 @@ import os
 
 HERE = os.path.dirname(os.path.dirname(os.path.abspath(__file__)))
 
+IT = ("abstract interpretation of the repository source by the analyser's own evaluator (sa/interp.py; nothing is "
+      "imported or executed by Python) ")
+
 CHECKS = {
+    "C01": dict(
+        technique="affine normal forms of the single-block maps per strand path (all integers) + order-type "
+                  "enumeration of block layouts interpreted by the analyser against a base-enumeration oracle",
+        text="Single-block point/interval maps are decided for all integers by affine normal forms against the 5'->3' "
+             "enumeration oracle. Multi-block maps (parent<->relative positions, relative intervals with every relative "
+             "strand, parent intervals to relative locations) are interpreted by the analyser on one representative of "
+             "every order type of 1-2 block layouts (3 in thorough: empty, adjacent, overlapping blocks, both strands, "
+             "every position and sub-interval) and compared with the oracle. This is a static decision of the kernels "
+             "on a finite abstract domain, not a proof of the block-walk loops for arbitrary block counts.",
+        note="Trusted: CPython ast, sa/interp.py, the enumeration oracle in sa/rules/c01.py. Representatives use "
+             "non-uniform (triangular) spacing so that mirror-symmetric layouts do not hide errors. Layouts with more "
+             "blocks than enumerated are not decided.",
+        design="DESIGN.md section 4, C01",
+    ),
+    "C02": dict(
+        technique="order-type abstract interpretation of the set-algebra kernels (all weak orderings of the operand "
+                  "bounds x strands x flags) against the position-set oracle",
+        text="has_overlap / intersection / union / minus / contains / compare and the compound normalisation kernels "
+             "(optimize_blocks, optimize_and_combine_blocks, is_overlapping, is_contiguous, gap_list, merge_overlapping, "
+             "constructor sort) are interpreted by the analyser on every weak ordering of the operand bounds under the "
+             "class invariants (single x single, 2-block compound x single both ways, 2x2 blocks; 3 blocks in thorough), "
+             "every strand pair and flag combination, and compared with position-set semantics and the structural "
+             "well-formedness of every returned location. For comparison-only kernels (checked syntactically) this is "
+             "exhaustive for all integers.",
+        note="Trusted: CPython ast, sa/interp.py, the oracle in sa/rules/c02.py. Not decided: operands with more blocks "
+             "than enumerated, the cgranges path (cgranges is not installed), distance arithmetic, parents.",
+        design="DESIGN.md section 4, C02",
+    ),
+    "C06": dict(
+        technique="structural wiring table of the 35 coordinate wrappers + guard dominance for the optional CDS + "
+                  "interpretation of the coordinate API on every CDS placement over small exon layouts",
+        text="R1-R3 decide, structurally, that each wrapper resolves to the Location method, coordinate system and object "
+             "its name encodes, that cds<->transcript conversions use one genomic leg each way and that every use of the "
+             "optional CDS is guarded. RK interprets TranscriptInterval construction and its coordinate API for every CDS "
+             "placement on every order type of 1-2 exon layouts (3 in thorough), both strands, against a base-enumeration "
+             "oracle: commutation, inverses, rejection, aa index, UTR/CDS partition, introns, empty UTRs.",
+        note="Trusted: CPython ast, sa/interp.py, oracle in sa/rules/c06.py. digest_object is hooked out (identifiers are "
+             "C08). Chunk-cut transcripts and larger layouts are not decided.",
+        design="DESIGN.md section 4, C06",
+    ),
     "C15": dict(
         technique="constant folding of the tables from the AST + abstract interpretation of the table-driven "
                   "functions over their complete finite domains + mod-3 affine normal form for CDSFrame.shift",
